@@ -282,6 +282,29 @@ mut("c12-second-stop-errors", ["C12"], "server.go",
 mut("c12-stop-skips-wait-when-listener-already-closed", ["C12"], "server.go",
     "\t\t\tdefault:\n\t\t\t\ts.logger.Debug(\"listener already closed\")", "\t\t\tdefault:\n\t\t\t\ts.logger.Debug(\"listener already closed\")\n\t\t\t\treturn nil")
 
+# ---- C07 -------------------------------------------------------------------
+mut("c07-connection-level-recover-removed", ["C07"], "server.go",
+    "\t\t\tif !s.disablePanicRecovery {\n\t\t\t\t// catch and report panics", "\t\t\tif false {\n\t\t\t\t// catch and report panics")
+mut("c07-per-request-recover-removed", ["C07"], "conn.go",
+    "\t\t\t\tif !c.disablePanicRecovery {\n", "\t\t\t\tif false {\n")
+mut("c07-per-request-recover-only-for-search", ["C07"], "conn.go",
+    "\t\t\t\tif !c.disablePanicRecovery {\n", "\t\t\t\tif !c.disablePanicRecovery && r.routeOp != deleteRouteOperation {\n")
+mut("c07-accept-retry-removed", ["C07"], "server.go",
+    "if ne, ok := err.(net.Error); ok && ne.Temporary() { //nolint:staticcheck", "if ne, ok := err.(net.Error); ok && ne.Temporary() && false { //nolint:staticcheck")
+mut("c07-panic-after-write-keeps-writer-lock", ["C07", "C05"], "response.go",
+    "\trw.writerMu.Lock()\n\tdefer rw.writerMu.Unlock()\n", "\trw.writerMu.Lock()\n\tdefer func() {\n\t\tif rw.requestID%7 != 0 {\n\t\t\trw.writerMu.Unlock()\n\t\t}\n\t}()\n")
+
+# ---- C11 -------------------------------------------------------------------
+mut("c11-unblocking-step-removed", ["C11"], "server.go",
+    "\t\t\t\t_ = c.SetReadDeadline(time.Now())\n\t\t\t\t_ = c.SetWriteDeadline(time.Now().Add(shutdownWriteGrace))\n", "")
+mut("c11-only-read-deadline", ["C11"], "server.go",
+    "\t\t\t\t_ = c.SetWriteDeadline(time.Now().Add(shutdownWriteGrace))\n", "")
+mut("c11-only-write-deadline", ["C11"], "server.go",
+    "\t\t\t\t_ = c.SetReadDeadline(time.Now())\n", "")
+mut("c11-retry-read-forever-on-shutdown", ["C11"], "conn.go",
+    "\t\tselect {\n\t\tcase <-c.shutdownCtx.Done():\n\t\t\tc.logger.Debug(\"received shutdown cancellation\"", "\t\tselect {\n\t\tcase <-doneUnless(c.shutdownCtx, requestID > 3):\n\t\t\tc.logger.Debug(\"received shutdown cancellation\"",
+    more=[("conn.go", "func (c *conn) readRequest(", "func doneUnless(ctx context.Context, b bool) <-chan struct{} {\n\tif b {\n\t\treturn nil\n\t}\n\treturn ctx.Done()\n}\n\nfunc (c *conn) readRequest(")])
+
 # ---- C14 -------------------------------------------------------------------
 mut("c14-managedsait-criticality-dropped-on-decode", ["C14", "C01"], "control.go",
     "return NewControlManageDsaIT(WithCriticality(Criticality))", "return NewControlManageDsaIT()")
